@@ -28,6 +28,21 @@ BUDGET = {  # number of scenarios per tier
 }
 WALL = {"quick": 150.0, "thorough": 1500.0}
 
+# probes that must have been hit at least once in a thorough run: a probe stuck at zero means the workload or the
+# fault mix no longer reaches the situation the check exists for (exit 2, never 0)
+MANDATORY = {
+    "C12": ["inv_calc_checked", "t_to_0_limit_checked", "inv_tp_checked", "inv_calc_after-history", "retry_after_cancel", "retry_after_alloc-fail",
+            "retry_after_open-fail", "retry_after_read-fail", "two_calculators_alive"],
+    "C14": ["reread", "refill_checked", "two_calculators_alive", "rewrite_same_variable", "mutate_config", "retry_after_cancel", "retry_after_alloc-fail",
+            "retry_after_open-fail", "retry_after_read-fail", "retry_after_write-torn", "torn_file_rewritten"],
+    "C15": ["disk_file_checked", "disk_file_checked_final", "file_overwritten_by_other_client", "torn_file_rewritten", "alias_rewrite", "unit_override",
+            "fname_override", "retry_after_write-torn", "retry_after_cancel"],
+    "C17": ["round_qha_input_checked", "round_elast_data_checked", "energy_roundtrip_checked", "energy_file_overwritten_by_smaller", "fill_roundtrip_checked"],
+    "C19": ["extract_checked", "geotherm_node_checked", "geotherm_offnode_poly_checked", "extract_reads_other_clients_file", "extract_between_grid_values",
+            "extract_reads_stub_table", "torn_file_rewritten"],
+    "C09": ["fill_presentation_pair_checked", "fill_supplied_values_checked", "fill_nonexistent_path_rejected", "clutter_entries"],
+}
+
 COMPARE_FIELDS = ["kind", "status", "exc", "where", "array", "stdout", "stdout_len", "files", "writes", "keys", "dims", "table", "data"]
 
 
@@ -373,6 +388,21 @@ class Check:
         if len(done_seeds) == 0:
             print("HARNESS: no scenario completed")
             rc = rc or 2
+        if self.tier == "thorough" and not os.environ.get("VERIF_N"):
+            missing = [p for p in MANDATORY.get(self.prop, []) if agg.probes.get(p, 0) == 0]
+            if self.prop == "C14" and agg.switches == 0:
+                missing.append("line_level_switches")
+            if self.prop == "C12":
+                import itertools
+                from cijsim import world as _W
+                want = [f"{m}:{o}" for m in _W.INTERPOLATORS for o in _W.admissible_orders(m, 9)]
+                have = agg.coverage.get("interp_order", {})
+                missing += [f"coverage interp_order {w}" for w in want if w not in have and not w.startswith("hermite")]
+                missing += [f"coverage system {s}" for s in _W.SYSTEMS if s not in agg.coverage.get("system", {})]
+            if missing:
+                harness.append(f"mandatory probes at zero: {missing}")
+                print("HARNESS: mandatory probes at zero:", missing)
+                rc = rc or 2
         agg.write_evidence(self, wall, len(done_seeds), len(violations), known_hits, harness)
         print(f"{self.prop} {self.tier}: {len(done_seeds)} scenarios, {agg.parts} parts, {agg.ops} operations, "
               f"{len(violations)} violations, {sum(n for _, n in known_hits.values())} known-finding hits, {len(harness)} harness errors, {wall:.1f}s")
